@@ -10,7 +10,7 @@ PROP = {'counts': {'quick': 100, 'thorough': 5000},
          '<= 10 MB, batch <= 1000) rejected without effect + dead/unknown handles answer not-found; non-trivial = '
          'a transaction read or scan that sees its own buffered write, a filtered/ranged/limited scan that returns '
          'rows and at least one rejected request; distinct by case text'
-         ' Added later: scan-option sweep case (every prefix/suffix, plain and by handle), concurrent BeginTransaction burst, unexpected waits bounded at 20 s.',
+         ' Added later: scan-option sweep case (every prefix/suffix, plain and by handle), concurrent BeginTransaction burst, unexpected waits bounded at 20 s; the harness server also takes the grpc.MaxSendMsgSize option of cmd/kevo/server.go (gen/ServiceLimits.v svc_server_max_send, ServiceProofs.admitted_values_can_be_sent: every admitted key + value fits a response), and a value of exactly the limit is read back by Get, TxGet, Scan and TxScan, once under a 4096-byte key.',
  'assumptions': ['programs are sequential: a call that has to wait for the transaction lock is issued only where '
                  'waiting has no later effect (Scan, GetStats, BeginTransaction while a read-write handle is open) '
                  'and is observed as "blocked" through a 300 ms client deadline',
